@@ -221,6 +221,15 @@ fn gen_profile(profile: &str, seed: u64, n: usize, thorough: bool, out: &mut Out
                     }
                 }
             }
+            // a database that keeps the default `sleep`: the waits are seen on the clock only
+            for (attempts, nanos) in [(20u32, 900_000u64), (20, 999_999), (10, 1_500_000), (5, 3_000_000)] {
+                watchdog::enter(&format!("sleepprobe {} {}", attempts, nanos));
+                writeln!(out.cases, "sleepprobe {} {}", attempts, nanos).unwrap();
+                writeln!(out.imp, "{}", script::run_sleep_probe(attempts, nanos)).unwrap();
+                writeln!(out.tags, "c09 default sleep, wall clock").unwrap();
+                writeln!(out.expect, "-").unwrap();
+                out.n += 1;
+            }
             // random larger N
             for _ in 0..n {
                 let nn = r.range(7, 24);
@@ -633,6 +642,7 @@ fn replay_line(line: &str) -> String {
         "parse" => parseop::run_parse(t[1] == "1", &enc::unhx(t[2])),
         "fmt" => fmtop::run_fmt(&enc::unhx(t[1])).0,
         "testdir" => script::run_testdir_probe(t[1].parse().unwrap_or(2)),
+        "sleepprobe" => script::run_sleep_probe(t[1].parse().unwrap_or(2), t[2].parse().unwrap_or(0)),
         // the recorded event log is the replay (the tag names the seeds that regenerate the run)
         "libmon" => "accept".into(),
         "libname" => format!("name {}", libpar::replay_name(&enc::unhx(t[1]), t[2].parse().unwrap_or(0))),
